@@ -13,8 +13,10 @@ VERIF = os.path.dirname(os.path.dirname(os.path.abspath(__file__)))
 REPO = os.environ.get("VERIF_REPO", "/repo")
 VENV_PY = "/venv/bin/python"
 VT_PY = "python3-vt"
-EVIDENCE_DIR = os.path.join(VERIF, "evidence")
-REPLAY_DIR = os.path.join(VERIF, "replays")
+# build-time only (tools/try_seed.py): evaluations of deliberately broken trees write their evidence / replays elsewhere
+_OUT = os.environ.get("VERIF_SCRATCH_OUT")
+EVIDENCE_DIR = os.path.join(_OUT or VERIF, "evidence")
+REPLAY_DIR = os.path.join(_OUT or VERIF, "replays")
 KNOWN_FILE = os.path.join(VERIF, "KNOWN_FINDINGS.txt")
 
 
